@@ -139,6 +139,16 @@ async fn observe_view(v: &ViewUnderTest) -> Value {
 
 async fn run_view(case: Value) -> Value {
     let v = setup_view(&case, false);
+    // status flips: the node is silent for more than 15 s (genuine check_node_status marks it),
+    // then it pings again (the genuine ActiveNode message), then the 3 s heartbeat passes again
+    if let Some(flips) = case["flips"].as_array() {
+        for f in flips {
+            let id = f.as_u64().unwrap();
+            let _ = v.addr.send(VerifNodeManageCmd::Starve(id)).await;
+            let _ = v.addr.send(NodeManageRequest::ActiveNode(id)).await;
+            let _ = v.addr.send(VerifNodeManageCmd::Tick).await;
+        }
+    }
     observe_view(&v).await
 }
 
